@@ -84,6 +84,9 @@ def stratum_cases():
                         ('d z/d z', [8, z, z, 1]), ('Abs(p)/Abs(z)', [5, [7, 2, p], inv([7, 2, z])])):
             cases.append({'kind': 'stratum', 'tree': uc.tree_json(t), 'evaluate': False,
                           'name': '%s, z in unit %d with initial value 0' % (name, u)})
+    # sums whose leaves all carry one unit (percent, mV/volt, ms, mV) with product / quotient / power / exp terms
+    for name, tree, u in uc.same_unit_sums():
+        cases.append({'kind': 'stratum', 'tree': uc.tree_json(tree), 'evaluate': False, 'name': name})
     return cases
 
 
